@@ -19,7 +19,7 @@ LEVEL_NOTE = ("Trusted: the walker over the hugr.model AST; the HUGR validators.
               "not executed (no lowering for tket.modifier in the installed QIS compiler).")
 TECHNIQUE = "structural monitor over compiled HUGR (modifier op chain, arities, wiring) + validator"
 RULE = ("with-statements with 1-4 modifiers from {dagger, control(c), control(c1,c2), control(array3), "
-        "power(literal), power(nat parameter)} in any order with repetition; bodies of 1-4 gate calls "
+        "power(literal), power(nat parameter), power(call borrowing a captured array)} in any order with repetition; bodies of 1-4 gate calls "
         "on 1-2 captured qubits (dagger-safe), in 60% of the cases mixed with calls of fully flagged "
         "declared functions taking captured classical values (int, float: copyable; int / bool "
         "arrays: affine). distinct = distinct modifier sequences")
@@ -31,6 +31,9 @@ from guppylang.std.quantum import qubit, h, x, z, s, t, cx, cz
 dagger = object()
 control = object()
 power = object()
+
+@guppy.declare
+def cnt(a: array[int, 2]) -> nat: ...
 
 @guppy.declare(control=True, dagger=True, power=True)
 def rotk(q: qubit, k: int) -> None: ...
@@ -80,10 +83,14 @@ def build(rng):
                 cs = [free_ctrl.pop(0) for _ in range(m)]
                 mods.append(("control", cs))
         else:
-            if rng.random() < 0.5:
+            r_ = rng.random()
+            if r_ < 0.4:
                 mods.append(("power_lit", rng.randint(2, 9)))
-            else:
+            elif r_ < 0.8:
                 mods.append(("power_var", "n"))
+            else:
+                # exponent computed from a captured non-copyable value that the body uses too
+                mods.append(("power_expr", "cnt(ar)"))
     parts = []
     for m in mods:
         if m[0] == "dagger":
@@ -93,6 +100,8 @@ def build(rng):
         elif m[0] == "control_arr":
             parts.append("control(cs)")
         elif m[0] == "power_lit":
+            parts.append(f"power({m[1]})")
+        elif m[0] == "power_expr":
             parts.append(f"power({m[1]})")
         else:
             parts.append("power(n)")
@@ -108,7 +117,10 @@ def build(rng):
         gates.append(g)
     # classical captures: copyable values (int, float) and affine ones (arrays), in any order of
     # first use — the block function's parameter order and the call site must agree
-    if rng.random() < 0.6:
+    uses_expr = any(m[0] == "power_expr" for m in mods)
+    if rng.random() < 0.6 or uses_expr:
+        if uses_expr:
+            body.insert(rng.randint(0, len(body)), f"        tab({rng.choice(['q', 'r'])}, ar)")
         extra = [f"        {rng.choice(['rotk(q, kk)', 'rotk(r, kk)', 'rotf(q, fl, kk)', 'rotf(r, fl, 2)', 'tab(q, ar)', 'tab(r, ar)', 'tab2(br, q, kk, ar)', 'tab2(br, r, 1, ar)'])}"
                  for _ in range(rng.randint(1, 3))]
         for e_ in extra:
